@@ -97,6 +97,30 @@ func analyse(rr *runRec) *analysis {
 	return a
 }
 
+// faultScripted: the scenario injects a fault somewhere.
+func (a *analysis) faultScripted() bool {
+	sc := a.sc
+	if sc.OutFailAt > 0 || sc.Trig != nil && sc.Trig.Action == "ttyfail" {
+		return true
+	}
+	for _, b := range sc.Bars {
+		if b.FailAt > 0 || b.ExtFailAt > 0 {
+			return true
+		}
+	}
+	return false
+}
+
+func (a *analysis) debugText() string {
+	a.rr.mu.Lock()
+	defer a.rr.mu.Unlock()
+	s := a.rr.debug.String()
+	if len(s) > 200 {
+		s = s[:200]
+	}
+	return s
+}
+
 func (a *analysis) hist() []OpRec {
 	a.rr.mu.Lock()
 	defer a.rr.mu.Unlock()
@@ -454,6 +478,13 @@ func (a *analysis) framesUsable() *verdict {
 	}
 	if a.rr.stuckKind != "" {
 		v := inconclusive("scenario did not finish (%s); frame oracles not applied", a.rr.stuckKind)
+		return &v
+	}
+	if a.errCycle && !a.faultScripted() {
+		// nothing was made to fail, yet a render cycle returned an error: the frames
+		// the display properties speak of were never drawn
+		v := violated("render-error-unprovoked", "a render cycle returned an error although no filler, extender, output or terminal fault was injected in this scenario (debug output: %q)", a.debugText())
+		v.Witness = a.tail()
 		return &v
 	}
 	for _, f := range a.frames {
